@@ -292,3 +292,42 @@ pub fn read_back(repo: &Repository<IndexedFullStatus>, snap: &SnapshotFile) -> R
     }
     Ok(out)
 }
+
+/// restore a snapshot into `dest` (created if needed) with the real restore command
+pub fn restore_to(
+    repo: &Repository<IndexedFullStatus>,
+    snap: &SnapshotFile,
+    dest: &std::path::Path,
+    opts: &rustic_core::RestoreOptions,
+) -> RusticResult<()> {
+    let node = repo.node_from_snapshot_and_path(snap, "")?;
+    let ls = repo.ls(&node, &rustic_core::LsOptions::default())?;
+    let d = rustic_core::LocalDestination::new(dest.to_str().unwrap(), true, !node.is_dir())?;
+    let plan = repo.prepare_restore(opts, ls.clone(), &d, false)?;
+    repo.restore(plan, opts, ls, &d)
+}
+
+/// the regular files, directories and symlinks below `root`: relative path -> (type, content / link target)
+pub fn read_dir_tree(root: &std::path::Path) -> std::collections::BTreeMap<String, (String, Vec<u8>)> {
+    fn walk(base: &std::path::Path, dir: &std::path::Path, out: &mut std::collections::BTreeMap<String, (String, Vec<u8>)>) {
+        let Ok(rd) = std::fs::read_dir(dir) else { return };
+        for e in rd.flatten() {
+            let p = e.path();
+            let rel = p.strip_prefix(base).unwrap().to_string_lossy().to_string();
+            let Ok(md) = std::fs::symlink_metadata(&p) else { continue };
+            if md.file_type().is_symlink() {
+                use std::os::unix::ffi::OsStrExt;
+                let t = std::fs::read_link(&p).map(|t| t.as_os_str().as_bytes().to_vec()).unwrap_or_default();
+                _ = out.insert(rel, ("symlink".into(), t));
+            } else if md.is_dir() {
+                _ = out.insert(rel, ("dir".into(), vec![]));
+                walk(base, &p, out);
+            } else {
+                _ = out.insert(rel, ("file".into(), std::fs::read(&p).unwrap_or_default()));
+            }
+        }
+    }
+    let mut out = std::collections::BTreeMap::new();
+    walk(root, root, &mut out);
+    out
+}
